@@ -35,13 +35,20 @@ def check_C18(run):
             if r["gen"] == "ok":
                 n += 1
                 kinds.add(("witness", tuple(r["imports"]), tuple(r["decls"])))
+    import fam_formats
+    fsumm, fobs = fam_formats.pipeline(run)
+    if fobs:
+        for r in read_ndjson(fobs):
+            if r["gen"] == "ok":
+                n += 1
+                kinds.add(("formats", r["fmt"], tuple(sorted(r["decls"].items()))))
     summ3, obs3 = fam_calls.pipeline(run)
     for r in read_ndjson(obs3):
         if not r["exec"] and r["gen"] == "ok":
             n += 1
             kinds.add(("calls", tuple(r["imports"]), tuple(r["decls"])))
     run.assumptions = ["the emitted files are parsed with go/parser by the harness; import paths are mapped to roles (user package, enum packages)",
-                       "struct output format only; output:raw, wrapErrors and wrapErrorsUsing are not enumerated here"]
+                       "output:raw is not enumerated; the function and variables formats are judged on the formats family only"]
     return run.finish("AST of every file emitted in the rules family (type shapes incl. named types and unsafe.Pointer), the enum family (fmt exactly with @error/@panic actions), the struct family (field selection, update methods with zero-value guards) and the calls family (wrapErrorsUsing package exactly when a wrap is emitted); "
                       "TLC validates import set = owners of used types (+fmt) and top-level declarations = one struct + its methods; distinct = distinct (family, imports, declarations)", n, len(kinds))
 
